@@ -5,6 +5,12 @@ HERE = os.path.dirname(os.path.dirname(os.path.abspath(__file__)))
 
 # id -> (technique, level text, level note, design ref)
 CHECKS = {
+ "C03": ("stateful differential testing (warm cache / cold cache / interpreter) over proptest operation histories with shrinking",
+         "Generated histories of block executions, guest bank switches through bank-0 trampolines, host bank-register writes, switch-backs and fall-through into the switchable bank run on multi-bank MBC1/MBC3 ROMs whose banks hold different code at the same slot addresses; the jit build with its persistent cache, the jit build with an empty cache before every step and the interpreter build must agree on all scalars and the whole memory after every step.",
+         "interpreter build is the reference; self-switching blocks in the switchable region (known finding of C01) are excluded by construction / counted; translation-heavy, so half of the shards take part", "DESIGN.md §5 C03"),
+ "C04": ("differential testing jit on/off over proptest-generated structured programs with shrinking, per-step state and bus-write comparison",
+         "Structured multi-block programs (loops, calls, conditional returns, interrupt handlers, timer/LCD interrupts, HALT/STOP, OAM DMA, RAM code, far calls into banks with different code, serial writes, fall-through into the switchable bank) are assembled and run block by block on a jit build and an interpreter build; all CPU/device scalars and the ordered bus writes are compared after every step, the whole memory, frame buffers and serial log every 64 steps and at the end.",
+         "interpreter build is the reference; runs end where the interpreter refuses an instruction; the C01 known-finding class is excluded and counted; translation-heavy, so half of the shards take part", "DESIGN.md §5 C04, appendix A"),
  "C20": ("exhaustive enumeration + proptest against a reference grammar and a round-trip/tiling relation: all addresses in all notations, generated Unicode lines, generated instruction sequences with shrinking",
          "All 65536 addresses in seven notations, bare and inside break/p/print lines with generated case and Unicode padding, must parse to exactly their value; enumerated and generated malformed or out-of-range numerals must be rejected; arbitrary Unicode and structured lines must be handled without panicking and agree with the reference grammar; byte sequences composed of complete instructions (any first byte, any base incl. wrap) must be tiled exactly by disassemble()'s rendered output and agree with decoder::decode and the published length table.",
          "trusted: the reference grammar in c20.rs and models::sm83::LENGTHS; gray zone (leading +, 0X prefix, non-ASCII digits and case folding, extra tokens, unknown first words) accepts either outcome", "DESIGN.md §5 C20"),
